@@ -13,6 +13,7 @@ import NostrRelay.Model.Proto
 import NostrRelay.Model.Live
 import NostrRelay.Model.Handler
 import NostrRelay.Model.Announce
+import NostrRelay.Model.Validate
 
 open Lean
 
@@ -396,6 +397,16 @@ def step (st : St) (j : Json) : St × Json :=
   | "json.event" =>
     (st, JD.jcps (NostrRelay.Json.eventAsJson (JD.field j "sid") (JD.parseFields (j.getObjVal? "e" |>.toOption.getD Json.null))))
   | "json.eose" => (st, JD.jcps (NostrRelay.Json.eoseFrame (JD.field j "sid")))
+  | "val.hex" =>
+    -- ids / authors of a filter: list of strings (code points) → validated strings and what the planner decodes, or null
+    let raw := (getArr j "values").toList.map JD.cps
+    (st, match NostrRelay.Validate.validateHexList raw with
+      | none => Json.null
+      | some hs => Json.mkObj [("validated", Json.arr (hs.map JD.jcps).toArray),
+          ("decoded", jHexList (NostrRelay.Validate.decodeAll hs))])
+  | "val.kinds" =>
+    let raw : List Int := (getArr j "values").toList.map fun x => (x.getInt?.toOption.getD 0)
+    (st, Json.arr ((NostrRelay.Validate.sortKinds raw).map fun k => Json.num (JsonNumber.fromInt k)).toArray)
   | "json.enc" => (st, JD.jcps (NostrRelay.Json.encodeBasestring (JD.field j "s")))
   | "json.parse" => (st, JD.frameJson (NostrRelay.Json.parseFrame (JD.field j "s")))
   | "adm.isSigned" => (st, Json.str (AD.verdictStr (NostrRelay.Admission.isSigned (AD.parseFacts (j.getObjVal? "facts" |>.toOption.getD Json.null)))))
